@@ -195,12 +195,24 @@ def _prune(keep_prefixes):
         pre = e.rsplit('-', 1)[0]
         if pre not in seen:
             seen.append(pre)
-        if seen.index(pre) >= 3 and pre not in keep_prefixes:
+        if seen.index(pre) >= 6 and pre not in keep_prefixes:
             shutil.rmtree(os.path.join(CACHE, e), ignore_errors=True)
 
 
+_MEMO = {}
+
+
 def ensure(variant='plain', root=REPO, quiet=False):
-    """returns the directory holding btcdeb, btcc, tap, vh, ... built from the current tree"""
+    """returns the directory holding btcdeb, btcc, tap, vh, ... built from the current tree
+    (memoised per process: one check run uses one consistent set of binaries)"""
+    if (variant, root) in _MEMO and os.path.isdir(_MEMO[(variant, root)]):
+        return _MEMO[(variant, root)]
+    out = _ensure(variant, root, quiet)
+    _MEMO[(variant, root)] = out
+    return out
+
+
+def _ensure(variant, root, quiet):
     os.makedirs(CACHE, exist_ok=True)
     key = '%s-%s' % (tree_hash(root), native_hash())
     out = os.path.join(CACHE, '%s-%s' % (key, variant))
